@@ -421,6 +421,33 @@ func (w *World) registerIntrinsics() {
 		}
 		return tuple(mkLen(msg), nilIface)
 	}
+	// the standard streams: opaque files that swallow what is written to them
+	I["os.NewFile"] = func(e *Exec, fn *ssa.Function, a []Value) Value {
+		ft := e.errorsPkgType("os", "File")
+		return &Pointer{obj: e.newObject(ft, e.zero(ft), "os file")}
+	}
+	I["(*os.File).Write"] = func(e *Exec, fn *ssa.Function, a []Value) Value {
+		return tuple(mkLen(e.bytesTerm(a[1])), nilIface)
+	}
+	I["(*os.File).WriteString"] = func(e *Exec, fn *ssa.Function, a []Value) Value {
+		return tuple(mkLen(a[1].(*Term)), nilIface)
+	}
+	I["fmt.Fprintln"] = func(e *Exec, fn *ssa.Function, a []Value) Value {
+		var parts []*Term
+		for i, x := range e.sliceElems(a[1].(*SliceVal)) {
+			if i > 0 {
+				parts = append(parts, mkStr(" "))
+			}
+			parts = append(parts, e.fmtValue(x, 'v'))
+		}
+		parts = append(parts, mkStr("\n"))
+		msg := mkConcat(parts...)
+		r := e.invoke(a[0], "Write", &BytesVal{s: msg})
+		if tv, ok := r.(*TupleVal); ok {
+			return tv
+		}
+		return tuple(mkLen(msg), nilIface)
+	}
 	I["fmt.Sprint"] = func(e *Exec, fn *ssa.Function, a []Value) Value {
 		var parts []*Term
 		for _, x := range e.sliceElems(a[0].(*SliceVal)) {
